@@ -502,6 +502,21 @@ def r5_strict(ctx, m, res) -> None:
             if uses and len(uses) == len(calls_) and x_ != acc:
                 len_records.add(x_)
 
+    # a first-iteration flag: F = True before the loop, F = False unconditionally in the loop body (once), nothing else stores it:
+    # inside the body, before that store, `F` is true exactly in the first iteration -- as positional as an enumerate index
+    first_flags = set()
+    for s_ in cfn.body[: cfn.body.index(olp)]:
+        if isinstance(s_, ast.Assign) and isinstance(s_.targets[0], ast.Name) and isinstance(s_.value, ast.Constant) and s_.value.value is True:
+            x_ = s_.targets[0].id
+            st_all = [n for n in ast.walk(cfn) if isinstance(n, ast.Name) and n.id == x_ and isinstance(n.ctx, (ast.Store, ast.Del))]
+            top = [b_ for b_ in olp.body if isinstance(b_, ast.Assign) and u(b_.targets[0]) == x_ and isinstance(b_.value, ast.Constant) and b_.value.value is False]
+            if len(st_all) == 2 and len(top) == 1:
+                # read only before the store within the body
+                k_ = olp.body.index(top[0])
+                late = [n for b_ in olp.body[k_ + 1:] for n in ast.walk(b_) if isinstance(n, ast.Name) and n.id == x_]
+                if not late:
+                    first_flags.add(x_)
+
     def norm_t(t):
         return re.sub(r"_u\d+", "", u(t))
     for flag, what in (("strict_names", "register sets"), ("strict_lengths", "lengths")):
@@ -530,7 +545,8 @@ def r5_strict(ctx, m, res) -> None:
                 q = differ[0]
                 others = [(t, k) for t, k in q.tests if u(t) != flag and norm_t(t) not in keys_forms and not (isinstance(t, ast.Call) and u(t.func) == "in_loop_")]
                 positional = bool(others) and all((idx is not None and {x.id for x in ast.walk(t) if isinstance(x, ast.Name)} == {idx}) or
-                                                  (k and any(norm_t(t) == f"{x_} is not None" for x_ in snapshots)) for t, k in others)
+                                                  (k and any(norm_t(t) == f"{x_} is not None" for x_ in snapshots)) or
+                                                  (not k and norm_t(t) in first_flags) for t, k in others)
                 by_content = [t for t, k in others if acc in u(t) or S in u(t)]
                 ctx.check(positional and not by_content, "C19.R5", "register_bitstrings: only the first shot is exempt from the strict_names test", m.path, getattr(node, "lineno", fn.lineno),
                           "the first shot defines the register set and must be the only one exempt from the comparison; the exemption here is "
@@ -541,8 +557,13 @@ def r5_strict(ctx, m, res) -> None:
             q = differ[0]
             regs = [t for t, k in q.tests if isinstance(t, ast.Call) and u(t.func) == "in_loop_" and u(t.args[0]) == f"{S}.items()"]
             r_, b_ = (u(regs[0].args[1].elts[0]), u(regs[0].args[1].elts[1])) if regs and len(regs[0].args) > 1 and isinstance(regs[0].args[1], ast.Tuple) else ("?", "?")
-            present = any(u(t) in (f"{r_} in {acc}", f"{acc}.get({r_}) is not None") and k for t, k in q.tests)
-            cmp_ = any(u(t) in (f"len({acc}[{r_}][0]) == len({b_})", f"len({b_}) == len({acc}[{r_}][0])", f"len({acc}.get({r_})[0]) == len({b_})", f"len({b_}) == len({acc}.get({r_})[0])")
+            # (with the test made before every append, all strings recorded for a register have one length: the first and the last
+            #  recorded one are as good as each other)
+            lists = (f"{acc}[{r_}]", f"{acc}.get({r_})", f"{acc}.setdefault({r_}, [])")
+            # (a local of the iteration bound to one of these -- the summary of a loop body keeps the names bound in it)
+            lists += tuple(n.targets[0].id for n in ast.walk(olp) if isinstance(n, ast.Assign) and isinstance(n.targets[0], ast.Name) and u(n.value) in lists)
+            present = any(u(t) in (f"{r_} in {acc}", f"{acc}.get({r_}) is not None") + lists[1:] and k for t, k in q.tests)
+            cmp_ = any(u(t) in [f for l_ in lists for i_ in ("0", "-1") for f in (f"len({l_}[{i_}]) == len({b_})", f"len({b_}) == len({l_}[{i_}])")]
                        and not k for t, k in q.tests)
             rec = any(norm_t(t) in (f"{x_}.setdefault({r_}, len({b_})) == len({b_})", f"len({b_}) == {x_}.setdefault({r_}, len({b_}))") and not k
                       for t, k in q.tests for x_ in len_records)
@@ -558,6 +579,18 @@ def r5_strict(ctx, m, res) -> None:
         ok = bool(body_ps)
         for q in body_ps:
             mu = mutates_acc(q)
+            # `l = acc.setdefault(r, [])` evaluated on its own, then appended to: the setdefault-append idiom in two steps
+            if len(mu) == 2 and u(mu[0]) == f"{acc}.setdefault({r_}, [])" and u(mu[1]) == f"{acc}.setdefault({r_}, []).append({b_})":
+                mu = mu[1:]
+            # .. or through a local of the iteration bound to it
+            al = [n.targets[0].id for n in ast.walk(inner[0]) if isinstance(n, ast.Assign) and isinstance(n.targets[0], ast.Name) and u(n.value) == f"{acc}.setdefault({r_}, [])"]
+            if len(al) == 1 and len(mu) <= 1 and all(u(x) == f"{acc}.setdefault({r_}, [])" for x in mu):
+                app = [x for x in q.effects if isinstance(x, ast.Expr) and u(x) == f"{al[0]}.append({b_})"]
+                bind = [x for x in q.effects if isinstance(x, ast.Assign) and u(x) == f"{al[0]} = {acc}.setdefault({r_}, [])"]
+                other = [x for x in q.effects if isinstance(x, ast.Expr) and isinstance(x.value, ast.Call) and isinstance(x.value.func, ast.Attribute)
+                         and u(x.value.func.value) == al[0] and x not in app]
+                if len(app) == 1 and (len(bind) == 1 or mu) and not other and q.effects.index(app[0]) > (q.effects.index(bind[0]) if bind else -1):
+                    mu = [ast.parse(f"{acc}.setdefault({r_}, []).append({b_})").body[0]]
             present = [k for t, k in q.tests if u(t) in (f"{r_} in {acc}", f"{acc}.get({r_}) is not None")]
             good = len(mu) == 1 and (u(mu[0]) in (f"{acc}[{r_}].append({b_})", f"{acc}.setdefault({r_}, []).append({b_})") or
                                      (present and present[0] and u(mu[0]) == f"{acc}.get({r_}).append({b_})") or
